@@ -30,10 +30,53 @@ let sstate = ref sempty
 let st_of = function "U" -> InUse | "C" -> Cached | "R" -> Reserved | s -> failwith ("status " ^ s)
 let st_name = function InUse -> "U" | Cached -> "C" | Reserved -> "R"
 let span_apply line r = match r with Some s -> sstate := s | None -> Printf.printf "REFUSED %s\n" line
-let span_dump () =
-  let rs = List.sort compare (List.map (fun g -> Printf.sprintf "R %s %d %d" (hex_of_z g.rg_base) (int_of_z g.rg_total) (int_of_z g.rg_remaining)) !sstate.regions) in
-  let os = List.sort compare (List.map (fun o -> Printf.sprintf "O %s %d %s %s" (hex_of_z o.so_start) (int_of_z o.so_count) (hex_of_z o.so_master) (st_name o.so_status)) !sstate.objs) in
+let span_dump_of (ss : sstate) =
+  let rs = List.sort compare (List.map (fun g -> Printf.sprintf "R %s %d %d" (hex_of_z g.rg_base) (int_of_z g.rg_total) (int_of_z g.rg_remaining)) ss.regions) in
+  let os = List.sort compare (List.map (fun o -> Printf.sprintf "O %s %d %s %s" (hex_of_z o.so_start) (int_of_z o.so_count) (hex_of_z o.so_master) (st_name o.so_status)) ss.objs) in
   print_string ("D " ^ String.concat ";" (rs @ os)); print_newline ()
+let span_dump () = span_dump_of !sstate
+
+(* ---- combined machine (ProofsCombined.v: cstep): heap model ON TOP of the span model, small/medium requests ----
+   KC mc        start from (empty heap, the span state built so far by SM/SF/ST), map count mc
+   CO <fields of an O line>   one L_alloc call of the implementation; the supply the history names is read off the
+                implementation's answer e (the span its block lives in): the cached span at e, the reserve when it
+                starts at e, a fresh mapping at e when e is unknown to the span model, and - when e is a span the
+                model already has in use, so no span should be needed - a fresh mapping beyond every live mapping
+   CD           dump the span component *)
+let cst : cstate option ref = ref None
+let cmc = ref (z_of_int 64)
+let cslots : (int, z * z) Hashtbl.t = Hashtbl.create 1024
+let zeq a b = (hex_of_z a = hex_of_z b)
+let choose_supply (ss : sstate) (e : z) : supply =
+  match List.find_opt (fun o -> zeq o.so_start e) ss.objs with
+  | Some o when o.so_status = Cached -> FromCache e
+  | Some o when o.so_status = Reserved -> FromReserve
+  | Some _ ->
+    let top = List.fold_left (fun acc g -> max acc (int_of_z g.rg_base + int_of_z g.rg_total)) 0 ss.regions in
+    FromMap (z_of_int top)
+  | None -> (match reserve_of ss with
+             | Some r when zeq r.so_start e -> FromReserve
+             | _ -> FromMap e)
+let cres_name = function CDone (_, _) -> "done" | CRefusedByHeap -> "refused-by-heap" | CSupplyFailed -> "supply-failed" | CBadCall -> "bad-call"
+let combined_op op slot nsize spanno =
+  match !cst with
+  | None -> Printf.printf "CE %s stopped\n" op
+  | Some st ->
+    let slot = int_of_string slot and nsize = int_of_string nsize in
+    let ptr = Hashtbl.find_opt cslots slot in
+    let step cop ok =
+      match cstep !psh !cmc st cop with
+      | CDone (st', ret) -> cst := Some st'; ok ret
+      | e -> cst := None; Printf.printf "CE %s %s\n" op (cres_name e) in
+    match ptr with
+    | None when nsize = 0 -> Printf.printf "CP %s 0 0 0\n" op
+    | None ->
+      if nsize > int_of_z medium_limit then (cst := None; Printf.printf "CE %s out-of-scope\n" op)
+      else step (CAllocSM (z_of_int nsize, choose_supply st.cs_spans (z_of_hex spanno)))
+             (function Some ((s, o), us) -> Hashtbl.replace cslots slot (s, o); Printf.printf "CP %s %s %d %d\n" op (hex_of_z s) (int_of_z o) (int_of_z us)
+                     | None -> Printf.printf "CE %s no-block\n" op)
+    | Some (s, o) when nsize = 0 -> step (CFreeSM (s, o)) (fun _ -> Hashtbl.remove cslots slot; Printf.printf "CP %s 0 0 0\n" op)
+    | Some _ -> cst := None; Printf.printf "CE %s out-of-scope\n" op
 
 let () =
   iter_lines (fun line ->
@@ -80,6 +123,9 @@ let () =
     | [ "ST"; s; a; b ] -> span_apply line (op_set_status !sstate (z_of_hex s) (st_of a) (st_of b))
     | [ "SU"; s ] -> span_apply line (op_unmap !sstate (z_of_hex s))
     | [ "SD" ] -> span_dump ()
+    | [ "KC"; mc ] -> cmc := z_of_int (int_of_string mc); Hashtbl.reset cslots; cst := Some { cs_heap = heap_empty; cs_spans = !sstate }
+    | [ "CO"; op; slot; _osize; nsize; spanno; _off; _us; _sc; _bs; _bc; _spancount; _inpl ] -> combined_op op slot nsize spanno
+    | [ "CD" ] -> (match !cst with Some st -> span_dump_of st.cs_spans | None -> print_string "D <stopped>"; print_newline ())
     | [ "Q"; "huge"; v ] ->
       (match huge_request !psh (z_of_hex v) with
        | None -> Printf.printf "Q huge %s refused\n" v
